@@ -163,7 +163,11 @@ C09_Direct ==
 C12_Len == st.len = Cardinality(live) /\ st.len <= st.cap
 NoBad == bad = {}
 
-\* keep the ghost sets from multiplying states: they are functions of the history, and the
-\* invariants above are evaluated on every full state anyway
-View == <<st, issued, live, rmc, directs, bad>>
+\* Under wrapping_version the history ghosts are unbounded (and reuse of ancient handles is the
+\* documented exception): that configuration checks only the structural and in-bounds
+\* invariants, which depend on `st` alone, with states identified by `st`.
+StView == st
+\* index safety under wrapping: whatever resolves, resolves inside the live prefix
+C03_EntityInBounds ==
+    \A h \in HandleU : LET r == S!ResolveEntity(st, h[1], h[2]) IN r >= 0 => (r < st.len /\ st.dpos[r] = h[1])
 =============================================================================
